@@ -30,11 +30,11 @@ m = {
     "version": 1,
     "setup_cmd": "bin/setup",
     "hooks": {"guard": "wwcore_verif",
-              "enable": "no source hooks are committed to /repo: the witness replay builds a scratch overlay copy of the working tree and appends `pub mod verif_hooks` to the lib.rs of the crates whose private modules it drives",
+              "enable": "no source hooks are committed to /repo and none is needed: the checks read the working tree (extraction by byte span) and never build or run it, so the guard is unused",
               "baseline_off_cmd": "cd /repo && cargo test --workspace --no-fail-fast --offline",
               "source_commits": [], "add_only": True},
     "engines": [{"name": "verus-contracts", "path": "bin/check", "serves_properties": [c["property_id"] for c in checks],
-                 "kind_free_text": "syn-based extractor + trusted Verus prelude + contract files (units/*.vu) -> verus per unit; witness search on the real code via overlay build"}],
+                 "kind_free_text": "syn-based extractor + trusted Verus prelude + contract files (units/*.vu) -> verus per unit; Verus gives no counterexample, so a VIOLATION line ends no-failing-input-found and the replay file carries the failed obligation with the verifier output (replay = re-verify that obligation on the current tree)"}],
     "checks": checks,
     "notes": "exit 0 held / exit 1 VIOLATION / exit 2 inconclusive machinery problem. known_findings.json lists recorded and fixed findings.",
     "not_applicable": na,
